@@ -970,9 +970,10 @@ func (r *FnRun) jump(st *State, fr *frame, from, to *ssa.BasicBlock) {
 	if ord, ok := li.heads[to]; ok {
 		invs := r.loopInvariants(fr, ord)
 		if li.blocks[to][from] {
+			r.ghostAtLoop(st, fr, ord, "loop-backedge", to)
 			// back edge: invariant must be preserved
 			for _, c := range invs {
-				t, err := r.evalClause(st, fr, c, nil, "loop invariant")
+				t, err := r.evalClause(st, fr, c, r.rangeIndexVars(st, to), "loop invariant")
 				if err != nil {
 					r.errs = append(r.errs, err.Error())
 					continue
@@ -981,8 +982,9 @@ func (r *FnRun) jump(st *State, fr *frame, from, to *ssa.BasicBlock) {
 			}
 			return
 		}
+		r.ghostAtLoop(st, fr, ord, "loop-entry", to)
 		for _, c := range invs {
-			t, err := r.evalClause(st, fr, c, nil, "loop invariant")
+			t, err := r.evalClause(st, fr, c, r.rangeIndexVars(st, to), "loop invariant")
 			if err != nil {
 				r.errs = append(r.errs, err.Error())
 				continue
@@ -995,7 +997,7 @@ func (r *FnRun) jump(st *State, fr *frame, from, to *ssa.BasicBlock) {
 		ms := r.modsetBlocks(fr.fn, li.blocks[to])
 		r.applyHavoc(st, ms)
 		for _, c := range invs {
-			t, err := r.evalClause(st, fr, c, nil, "loop invariant")
+			t, err := r.evalClause(st, fr, c, r.rangeIndexVars(st, to), "loop invariant")
 			if err != nil {
 				continue
 			}
@@ -1004,6 +1006,34 @@ func (r *FnRun) jump(st *State, fr *frame, from, to *ssa.BasicBlock) {
 		st.trail = append(st.trail, fmt.Sprintf("loop%d", ord))
 	}
 	r.exec(st, fr, to, 0)
+}
+
+func (r *FnRun) ghostAtLoop(st *State, fr *frame, ord int, anchor string, head *ssa.BasicBlock) {
+	if fr.fc == nil {
+		return
+	}
+	for _, g := range fr.fc.Ghosts {
+		if g.Anchor != anchor || g.N != ord {
+			continue
+		}
+		pre := st.clone()
+		for _, fam := range g.Havoc {
+			st.havocFamily(fam)
+		}
+		ctx := &EvalCtx{run: r, st: st, old: pre, vars: map[string]*V{}, fn: fr.fn, pkg: fr.fn.Pkg.Pkg, cs: fr.cs, what: "ghost update"}
+		for k, v := range r.rangeIndexVars(st, head) {
+			ctx.vars[k] = v
+		}
+		for k, v := range st.ghostParams {
+			ctx.vars[k] = v
+		}
+		t, err := safeBool(ctx, g.Value, fr.fc.File, g.Line)
+		if err != nil {
+			r.errs = append(r.errs, err.Error())
+			continue
+		}
+		st.assume(t)
+	}
 }
 
 func lbl(c *Clause, def string) string {
@@ -1018,6 +1048,20 @@ func (c *Clause) fileOr(fr *frame) string {
 		return fr.fc.File
 	}
 	return ""
+}
+
+// rangeIndexVars binds `rangeindex` to the hidden index cell of the range loop whose head is `head`.
+func (r *FnRun) rangeIndexVars(st *State, head *ssa.BasicBlock) map[string]*V {
+	for _, ins := range head.Instrs {
+		if s, ok := ins.(*ssa.Store); ok {
+			if a, ok := s.Addr.(*ssa.Alloc); ok && a.Comment == "rangeindex" {
+				if v, ok := st.cells[a]; ok {
+					return map[string]*V{"rangeindex": v}
+				}
+			}
+		}
+	}
+	return nil
 }
 
 func (r *FnRun) loopInvariants(fr *frame, ord int) []*Clause {
@@ -1045,6 +1089,9 @@ func (r *FnRun) evalClause(st *State, fr *frame, c *Clause, extra map[string]*V,
 		}
 	}()
 	ctx := &EvalCtx{run: r, st: st, old: r.entryOf(fr), vars: map[string]*V{}, oldVars: st.params, fn: fr.fn, pkg: fr.fn.Pkg.Pkg, cs: fr.cs, what: what}
+	for k, v := range st.ghostParams {
+		ctx.vars[k] = v
+	}
 	for k, v := range extra {
 		ctx.vars[k] = v
 	}
